@@ -60,7 +60,7 @@ class LogicalSolver:
         with UnitEnvironment(self.env.units):
             operators = {
                 'par': OperatorPar,        # should be the last of parenthesis operators
-                'eq': CustomEq, 'ne': OperatorNe,
+                'eq': CustomEq, 'ne': CustomNe,
                 'not': CustomNot,          # needs to be after OperatorNe
                 'le': OperatorLe, 'ge': OperatorGe,
                 'lt': OperatorLt, 'gt': OperatorGt,
@@ -76,6 +76,15 @@ class CustomEq(OperatorEq):
     def operate_binary(self, tokens):
         left, right = tokens.get_left(), tokens.get_right()
         tokens.put_left(BooleanType(bool(left == right)))
+
+class CustomNe(OperatorNe):
+    # BooleanType has no __ne__: Python derives a bare bool from __eq__ (numbers return a BooleanType)
+    def operate_binary(self, tokens):
+        left, right = tokens.get_left(), tokens.get_right()
+        result = left != right
+        if not isinstance(result, BooleanType):
+            result = BooleanType(bool(result))
+        tokens.put_left(result)
 
 class CustomNot(OperatorNot):
     symbol: str = Sign.NEGATE
